@@ -252,6 +252,8 @@ pub struct Profile
     pub p_self: u8,
     /// probability that the end-of-frame work is *not* run after a top-level op
     pub p_no_settle: u8,
+    /// probability that a bundle names one of its triggers twice
+    pub p_dup_key: u8,
     /// concentrate events on few types/entities: number of event types and entities actually used by ops
     pub hot_entities: u8,
 }
@@ -285,6 +287,7 @@ impl Profile
             p_comp: 150,
             p_self: 60,
             p_no_settle: 90,
+            p_dup_key: 16,
             hot_entities: 3,
         }
     }
@@ -385,6 +388,13 @@ impl<'a, 'p> Dec<'a, 'p>
         {
             let k = self.key();
             if !keys.contains(&k) { keys.push(k); }
+        }
+        // occasionally the same trigger twice in one bundle (two registrations of one reactor on one key)
+        if !keys.is_empty() && keys.len() < 6 && self.chance(self.p.p_dup_key)
+        {
+            let i = self.below(keys.len());
+            let k = keys[i];
+            keys.push(k);
         }
         keys
     }
